@@ -1,0 +1,7 @@
+//go:build !verif
+
+package task
+
+func verifEvent(ev string, inv int, val int64) {}
+
+func verifInvoke() int { return 0 }
